@@ -40,6 +40,8 @@ pub(super) fn execute_create_from_rows<S: GraphSnapshot>(
             let external_id = ExternalId::from(
                 created_count as u64 + chrono::Utc::now().timestamp_nanos_opt().unwrap_or(0) as u64,
             );
+            #[cfg(nervusdb_verif)]
+            let external_id = nervusdb_storage::verif_hooks::ext_id(created_count as u64, external_id);
 
             let label_id = if let Some(label) = node_pat.labels.first() {
                 txn.get_or_create_label_id(label)?
